@@ -39,7 +39,18 @@ func modelsC04(tier string) ([]*PktModel, []int) {
 		// a native class with the same name and token id on the relay chain, transfers also through relay chains
 		nft3("nft3-same-class-name-on-relay-chain", props, NftScenario{MaxUserTx: 4, Receivers: []int{1}, Relays: true, AdvClasses: []string{"cls"}, AdvChains: []string{B}, MaxAdv: 1}, ""),
 	}
-	depth := []int{9, 8, 7, 9}
+	// relay chains that refuse: every chain's rules are empty, transfers are also offered through a relay chain (the
+	// refusal's error acknowledgement refunds the sender; nothing may reach the destination)
+	refusing := nft3("nft3-relay-chains-refuse", props, NftScenario{MaxUserTx: 3, Receivers: []int{1}, Relays: true}, "")
+	honestSetup := refusing.Setup
+	refusing.Setup = func(w *world.World) {
+		honestSetup(w)
+		for _, n := range []string{A, B, C} {
+			setRules(w, n, []string{})
+		}
+	}
+	models = append(models, refusing)
+	depth := []int{9, 8, 7, 9, 8}
 	if tier == "thorough" {
 		// the quick scenarios explored deeper, then the same two with a wider alphabet (second receiver, relay routes,
 		// burns, adversarial classes on two chains)
@@ -47,7 +58,7 @@ func modelsC04(tier string) ([]*PktModel, []int) {
 			nft3("nft3-honest-wide", props, NftScenario{MaxUserTx: 5, Receivers: []int{1, 2}, BadReceiver: true, Relays: true, Burns: true}, ""),
 			nft3("nft3-adversarial-class-wide", props, NftScenario{MaxUserTx: 5, Receivers: []int{1}, Relays: true, AdvClasses: adv, AdvChains: []string{B, C}, MaxAdv: 2, MintInto: true}, ""),
 		)
-		depth = []int{14, 12, 9, 10, 10, 8}
+		depth = []int{14, 12, 9, 10, 10, 10, 8}
 	}
 	return models, depth
 }
